@@ -29,6 +29,7 @@ import tempfile
 
 from mc.engine import Check, Res
 from mc import frames_alphabet as FA
+from mc import fresh_fork as FF
 
 OPS = ['V', 'v', 'D', 'I', 'R']
 OPNAMES = {'V': 'verify_df(repair=True)', 'v': 'verify_df(repair=False)',
@@ -78,8 +79,13 @@ class C01(Check):
             '(0..2 rows quick, 0..3 thorough) x every sequence of D '
             'operations (D=2: 25 sequences, thorough also D=3: 125) out of '
             '5, each rebuilt from scratch, invariant checked after each '
-            'operation. non-trivial = at least one constraint beyond `type` '
-            'was discovered and verified')
+            'operation. E3 over frames = every (earlier frame of family A) '
+            '-> (frame with the same column names of family B, 0..2 rows) '
+            'for all ordered family pairs x {new frame object, same object '
+            'with replaced columns}, exchanged column types, category '
+            'boundary; last frame discovered (rex on), verified from the '
+            'dict and detected from the .tdda file. non-trivial = at least '
+            'one constraint beyond `type` was discovered and verified')
     assumptions = [
         'pandas 3.0.6 / numpy 2.5; values outside the alphabets, > 4 rows '
         '(except many-category columns up to 27 rows) and > 2 columns are '
@@ -91,6 +97,12 @@ class C01(Check):
         'E3 state and the invariant is required of the mutated frame too',
         'rexpy is deterministic for these inputs (<= 27 distinct strings, no '
         'sampling); the global PRNG is not controlled here (C03/C14 do that)',
+        'every case starts from the process state "tdda imported, never '
+        'called" (child forked from a pristine worker, mc.fresh_fork); inside '
+        'an E1/E3 case the 18 calls / 25 sequences share one process, which '
+        'is part of the (replayable) case; dependence on EARLIER FRAMES is '
+        'explored explicitly by the e3-frames layer with a differential '
+        'oracle against the fresh state (history-dependent:<mode>:<what>)',
     ]
 
     # ----------------------------------------------------------- enumeration
@@ -106,10 +118,19 @@ class C01(Check):
                     ('e1-bc', 'E1, one-column frames named "b c"'),
                     ('e3-d2', 'E3, all 25 two-operation sequences on every '
                               'one-column frame with 0..2 rows and every '
-                              'many-category column')]
+                              'many-category column'),
+                    ('e3-frames', 'E3 over frames: a frame is discovered and '
+                                  'verified, then another frame with the '
+                                  'same column names (new object / same '
+                                  'object with replaced columns) goes '
+                                  'through discovery, verify and detect in '
+                                  'the same process: same verdicts as from '
+                                  'a fresh state')]
         return [('e1-a', 'E1, one-column frames named "a", 0..4 rows for '
                          'alphabets <= 4, else 0..3'),
                 ('e3-d2', 'E3, two-operation sequences, frames 0..3 rows'),
+                ('e3-frames', 'E3 over frames with the same column names '
+                              '(one or two earlier frames, 22 families)'),
                 ('e1-two', 'E1, two-column frames (ordered pairs of 18 '
                            'families, 2 rows, 3-value sub-alphabets, two '
                            'name pairs)'),
@@ -142,6 +163,16 @@ class C01(Check):
             pairs = [('a', 'b c'), ('a_min_ok', 'a')]
             for fr in FA.two_column_frames(FA.BASE_FAMILIES, 2, pairs, 3):
                 yield {'mode': 'e1', 'frame': fr}
+        elif layer == 'e3-frames':
+            groups = {}
+            for h in FA.frame_histories(tier == 'thorough'):
+                key = json.dumps([h['mode'], h['frame']], sort_keys=True)
+                if key not in groups:
+                    groups[key] = {'mode': 'fh', 'mmode': h['mode'],
+                                   'frame': h['frame'], 'hists': []}
+                groups[key]['hists'].append(h['hist'])
+            for g in groups.values():
+                yield g
         elif layer in ('e3-d2', 'e3-d3'):
             depth = int(layer[-1])
             rows = 2 if tier == 'quick' else 3
@@ -150,6 +181,11 @@ class C01(Check):
 
     # ---------------------------------------------------------------- worker
     def setup_worker(self, tier):
+        # import only: every case (and, in the e3-frames layer, every
+        # history) executes tdda in a child forked from this pristine image
+        FF.single_threaded_env()
+        import numpy                        # noqa: F401
+        import pandas                       # noqa: F401
         from tdda.constraints import discover_df, verify_df, detect_df
         self.discover_df = discover_df
         self.verify_df = verify_df
@@ -157,11 +193,8 @@ class C01(Check):
         self.sandbox = tempfile.mkdtemp(prefix='tdda_mc_c01_', dir='/var/tmp')
         self.tddapath = os.path.join(self.sandbox, 'c.tdda')
         self.outpath = os.path.join(self.sandbox, 'detected.csv')
-        try:
-            import tdda.rexpy.rexpy as rx
-            self.rx = rx
-        except Exception:
-            self.rx = None
+        FA.build_frame({'cols': [{'name': 'a', 'fam': 'i64', 'v': [1]}]})
+        FF.freeze()
 
     def teardown_worker(self):
         sb = getattr(self, 'sandbox', None)
@@ -169,9 +202,6 @@ class C01(Check):
             shutil.rmtree(sb, ignore_errors=True)
 
     def reset(self):
-        memo = getattr(self.rx, 'memo', None)
-        if hasattr(memo, 'clear'):
-            memo.clear()
         for p in (self.tddapath, self.outpath):
             if os.path.exists(p):
                 os.remove(p)
@@ -481,7 +511,105 @@ class C01(Check):
                    dict(extra, exception=repr(e)[:300]), sub)
             return None, None
 
-    def run_case(self, case):
+    # -------------------------------------------------- E3 over frames
+    def child_frame_ops(self, hist, frame, mode):
+        """In one process: for every earlier frame discover + verify it, then
+        bring up the last frame (a new object, or the same object with its
+        columns replaced) and run discovery (rex on) + verify_df from the
+        dict + detect_df from the .tdda file on it.  Returns the Res of the
+        LAST frame's operations only."""
+        df = None
+        keep = []
+        scratch = Res()
+        for fr in hist:
+            if df is None or mode == 'new-frame':
+                df = FA.build_frame(fr)
+                keep.append(df)
+            else:
+                FA.mutate_into(df, fr)
+            c, d = self.discover(scratch, fr, df, True, None)
+            if c is not None:
+                self.call(scratch, fr, df, d, d, 'verify', {'repair': True},
+                          None, {})
+        if df is None or mode == 'new-frame':
+            df = FA.build_frame(frame)
+        else:
+            FA.mutate_into(df, frame)
+        R = Res()
+        sub = {'ops': 'last-frame'}
+        c, d = self.discover(R, frame, df, True, sub)
+        if c is not None:
+            if sum(len(fc) for fc in d['fields'].values()) > len(d['fields']):
+                R.nontrivial = True
+            extra = {'frame': FA.describe(frame),
+                     'constraints': _j(d['fields'])}
+            self.call(R, frame, df, d, d, 'verify', {'repair': True}, sub,
+                      extra)
+            with open(self.tddapath, 'w', encoding='utf-8') as f:
+                f.write(c.to_json())
+            self.call(R, frame, df, d, self.tddapath, 'detect',
+                      {'repair': False, 'outpath': self.outpath}, sub, extra)
+        R.evals += scratch.evals
+        R.transitions += scratch.transitions
+        self.reset()
+        return R
+
+    def run_frame_histories(self, case):
+        """Differential: a violation on the last frame that does not occur
+        when the same operations run on it from a fresh state is caused by
+        what the process did before -> history-dependent:<mode>:<sig>."""
+        fresh = self.in_child(self.child_frame_ops, [], case['frame'],
+                              'new-frame')
+        fresh_sigs = set(v['sig'] for v in fresh.violations)
+        R = fresh
+        R.states = 1
+        for i, hist in enumerate(case['hists']):
+            H = self.in_child(self.child_frame_ops, hist, case['frame'],
+                              case['mmode'])
+            R.evals += H.evals
+            R.transitions += H.transitions
+            R.checked += H.checked
+            R.states += len(hist) + 1
+            hs = set(v['sig'] for v in H.violations)
+            R.out('e3f:%s:%s' % (case['mmode'], 'same-as-fresh'
+                                 if hs == fresh_sigs else 'differs'))
+            for v in H.violations:
+                if v['sig'] in fresh_sigs:
+                    continue
+                d = dict(v['detail'] or {})
+                d['history'] = [FA.describe(fr) for fr in hist]
+                d['mode'] = case['mmode']
+                d['from_fresh_state'] = sorted(fresh_sigs) or 'no violation'
+                parts = v['sig'].split(':')
+                aspect = ':'.join(parts[:2] if parts[0] == 'fails-own'
+                                  else parts[:1])
+                d['violation_after_history'] = v['sig']
+                R.viol('history-dependent:%s:%s' % (case['mmode'], aspect),
+                       'same-verdicts-as-from-fresh-state', d,
+                       {'history': i})
+            if fresh_sigs - hs:
+                R.viol('history-dependent:%s:violation-disappears'
+                       % case['mmode'], 'same-verdicts-as-from-fresh-state',
+                       {'history': [FA.describe(fr) for fr in hist],
+                        'frame': FA.describe(case['frame']),
+                        'only_from_fresh_state': sorted(fresh_sigs - hs)},
+                       {'history': i})
+        R.nontrivial = True
+        return R
+
+    def in_child(self, fn, *args):
+        try:
+            return FF.run_fresh(fn, *args)
+        except FF.TddaEscaped as e:
+            R = Res()
+            R.ev()
+            R.nontrivial = True
+            R.out('uncaught:%s' % e.tname)
+            R.viol('uncaught:%s' % e.tname, 'no-internal-error',
+                   {'exception': e.rep, 'traceback': e.tb})
+            return R
+
+    def child_case(self, case):
         R = Res()
         if case['mode'] == 'e1':
             self.run_e1(R, case['frame'])
@@ -489,6 +617,11 @@ class C01(Check):
             self.run_e3(R, case['frame'], case['depth'])
         self.reset()
         return R
+
+    def run_case(self, case):
+        if case['mode'] == 'fh':
+            return self.run_frame_histories(case)
+        return self.in_child(self.child_case, case)
 
 
 def frame_state(df):
